@@ -497,3 +497,45 @@ func TQ2(t time.Time) int {
 }
 
 func TQ3(a, b time.Time) bool { return !(a == b) || (a) == (b) }
+
+// ---- shapes reported by reviewers as mis-fixed (kept at the end of the file) ----
+
+func ZA1(k, v int) int {
+	var x any = v
+	if k > 0 {
+		x = "s"
+	}
+	switch x.(type) {
+	case int:
+		y, ok := x.(int)
+		if ok {
+			return y
+		}
+	}
+	return -1
+}
+
+func ZA2(k int, c bool) int {
+	m := map[int]int{1: 1, 2: 2}
+	if c {
+		m[3] = 3
+	} else if _, ok := m[k]; ok {
+		delete(m, k)
+	}
+	return len(m)
+}
+
+func ZA3(s string) string {
+	return strings.Replace(
+		s,
+		"a",
+		"c",
+		-1,
+	)
+}
+
+func ZA4(x, y int) int {
+	a := sA{x, y}
+	b := &sB{X: a.X, Y: a.Y}
+	return b.X*10 + b.Y
+}
